@@ -1,5 +1,5 @@
 (** * C05 -- a register always holds a valid quantum state *)
-From QV Require Import Reg ScalarR C05T.
+From QV Require Import Reg Expr ScalarR C05T.
 
 Theorem C05_invariant_partial : C05_invariant_partial_stmt.
 Proof. exact C05_invariant_partial_proof. Qed.
@@ -12,3 +12,11 @@ Print Assumptions C05_construct.
 Theorem C05_probabilities : C05_probabilities_stmt.
 Proof. exact C05_probabilities_proof. Qed.
 Print Assumptions C05_probabilities.
+
+Theorem C05_invariant : C05_invariant_stmt.
+Proof. exact C05_invariant_proof. Qed.
+Print Assumptions C05_invariant.
+
+Theorem C05_operators : C05_operators_stmt.
+Proof. exact C05_operators_proof. Qed.
+Print Assumptions C05_operators.
